@@ -1198,6 +1198,12 @@ class Interp(object):
         if k in ('acc', 'accpath'):
             from .accmodel import acc_getitem
             return acc_getitem(self, c, key)
+        if k == 'opaque' and c.tag == 'trpkey':
+            ci = concrete_int(key.z) if key.kind == 'int' else None
+            w = getattr(self.ctx, 'trpworld', None)
+            if ci == -1 and w is not None:
+                return VNode(w.last(c.z))
+            raise Undecided('index %r into a result key' % (ci,))
         if k == 'opaque' and c.z.sort() == EvK:
             ci = concrete_int(key.z) if key.kind == 'int' else None
             if ci == 0:
@@ -1255,6 +1261,9 @@ class Interp(object):
     def setitem(self, c, key, v):
         k = c.kind
         g = getattr(c, 'g', None)
+        if k == 'pairmap':
+            from .accmodel import pairmap_setitem
+            return pairmap_setitem(self, c, key, v)
         if g is not None and k in ('adj', 'row', 'edgedata', 'timeline', 'interval', 'tte', 'tteinner', 'snap'):
             g.valid = False           # a direct write to the edge representation: Inv(g) is no longer known
         if k in ('adj', 'row') and c.view:
